@@ -22,7 +22,8 @@ from fractions import Fraction
 
 ROOT = os.path.dirname(os.path.dirname(os.path.abspath(__file__)))
 
-# name, file, class (or None), function, what ("return" | "assign:<target>"), parameters in order with types, result type
+# name, file, class (or None), function, what ("return" | "assign:<target>" (straight-line, top level only) | "nth:<target>:<k>" | "kwarg:<name>" | "call:<f>"),
+# parameters in order with types, result type
 SPEC = [
     dict(group="05", name="get_index", file="setigen/frame.py", cls="Frame", func="get_index", what="return",
          params=[("fmin", "Q"), ("df", "Q"), ("frequency", "Q")], ret="Z"),
@@ -64,6 +65,22 @@ SPEC = [
          params=[("samples_per_block", "Z"), ("tbin", "Q")], ret="Q"),
     dict(group="20", name="record_obs_length", file="setigen/voltage/backend.py", cls="RawVoltageBackend", func="record", what="assign:self.obs_length",
          params=[("num_blocks", "Z"), ("time_per_block", "Q")], ret="Q"),
+    dict(group="17", name="dedrift_max_offset", file="setigen/dedrift.py", cls=None, func="dedrift", what="assign:max_offset",
+         params=[("drift_rate", "Q"), ("tchans", "Z"), ("dt", "Q"), ("df", "Q")], ret="Z"),
+    dict(group="17", name="dedrift_offset", file="setigen/dedrift.py", cls=None, func="dedrift", what="nth:offset:1",      # inside the loop over rows i
+         params=[("drift_rate", "Q"), ("i", "Z"), ("dt", "Q"), ("df", "Q")], ret="Z"),
+    dict(group="19", name="num_splits", file="setigen/split_utils.py", cls=None, func="split_waterfall_generator", what="nth:num_splits:2",   # else branch: fchans <= nchans
+         params=[("nchans", "Z"), ("fchans", "Z"), ("f_shift", "Z")], ret="Z"),
+    dict(group="19", name="piece_f_start", file="setigen/split_utils.py", cls=None, func="split_waterfall_generator", what="nth:f_start:1",   # inside the loop over pieces i
+         params=[("fch1", "Q"), ("df", "Q"), ("i", "Z"), ("f_shift", "Z")], ret="Q"),
+    dict(group="19", name="piece_f_stop", file="setigen/split_utils.py", cls=None, func="split_waterfall_generator", what="nth:f_stop:1",
+         params=[("f_start", "Q"), ("df", "Q"), ("fchans", "Z")], ret="Q"),
+    dict(group="02", name="windows_per_subblock", file="setigen/voltage/backend.py", cls="RawVoltageBackend", func="collect_data_block", what="nth:W:1",   # before the sub-block loop
+         params=[("T", "Z"), ("num_taps", "Z"), ("num_subblocks", "Z")], ret="Z"),
+    dict(group="02", name="subblock_T", file="setigen/voltage/backend.py", cls="RawVoltageBackend", func="collect_data_block", what="nth:subblock_T:1",
+         params=[("W", "Z"), ("num_taps", "Z")], ret="Z"),
+    dict(group="02", name="num_subblocks", file="setigen/voltage/backend.py", cls="RawVoltageBackend", func="collect_data_block", what="nth:self.num_subblocks:1",
+         params=[("T", "Z"), ("subblock_T", "Z")], ret="Z"),
     dict(group="11", name="stream_noise_var", file="setigen/voltage/data_stream.py", cls="DataStream", func="add_noise", what="assign:self.noise_std",
          params=[("noise_std", "Q"), ("v_std", "Q")], ret="Q", strip_call="xp.sqrt"),
 ]
@@ -98,11 +115,21 @@ def pick(fn, what):
             raise Untranslatable("%d return statements" % len(rets))
         return rets[0].value
     kind, target = what.split(":", 1)
+    if kind == "nth":
+        # the k-th assignment to the target in source order, wherever it is nested; the SPEC entry documents the enclosing branch / loop
+        target, k = target.rsplit(":", 1)
+        hits = sorted([m for m in ast.walk(fn) if isinstance(m, ast.Assign) and any(src(t) == target for t in m.targets)], key=lambda m: (m.lineno, m.col_offset))
+        if len(hits) < int(k):
+            raise Untranslatable("only %d assignments to %s" % (len(hits), target))
+        return hits[int(k) - 1].value
     if kind == "assign":
         expr = None
-        for n in ast.walk(fn):
-            pass
-        for n in [m for m in ast.walk(fn) if isinstance(m, (ast.Assign, ast.AugAssign))]:
+        top = [m for m in fn.body if isinstance(m, (ast.Assign, ast.AugAssign))]
+        nested = [m for m in ast.walk(fn) if isinstance(m, (ast.Assign, ast.AugAssign)) and m not in top
+                  and any(src(t) == target for t in (m.targets if isinstance(m, ast.Assign) else [m.target]))]
+        if nested:
+            raise Untranslatable("%s is also assigned inside a branch or loop (line %d): not a straight-line definition" % (target, nested[0].lineno))
+        for n in top:
             tg = n.targets if isinstance(n, ast.Assign) else [n.target]
             if any(src(t) == target for t in tg):
                 if isinstance(n, ast.Assign):
@@ -172,7 +199,7 @@ class Tr(object):
                 raise Untranslatable("free name %s" % n.id)
             return n.id, self.types[n.id]
         if isinstance(n, ast.Attribute):
-            if isinstance(n.value, ast.Name) and n.value.id == "self" and n.attr in self.types:
+            if isinstance(n.value, ast.Name) and n.value.id in ("self", "fr", "frame") and n.attr in self.types:
                 return n.attr, self.types[n.attr]
             raise Untranslatable("attribute %s" % s)
         if isinstance(n, ast.Subscript):
